@@ -32,7 +32,7 @@ REQUIRED_REACH = ['ParseMCNPCell.parse_one_cell', 'ParseMCNPCell.apply_but',
                   'ParseMCNPCell.parse_keywords']
 FAMILIES = ['trcl', 'mat-rho', 'rho-only', 'imp', 'u', 'fill', 'chain', 'forward',
             'everything', 'base-has-all']
-_PER = {'quick': 16, 'thorough': 900}
+_PER = {'quick': 16, 'thorough': 3000}
 
 SLOTS = [(-5.0, -5.0, 0.0), (0.0, -5.0, 1.0), (5.0, -5.0, -1.0),
          (-5.0, 0.0, 1.0), (5.0, 0.0, 0.5), (-5.0, 5.0, -0.5),
